@@ -32,6 +32,8 @@ for _pid, _cfgs in {'C04': ['BufferL2', 'BufferL2_nocool', 'BufferL2_fixed', 'Bu
     F[_pid] = dict(F[_pid])
     F[_pid]['mc_quick'] = list(F[_pid]['mc_quick']) + [('BufferL2', c) for c in _cfgs]
     F[_pid]['mc_thorough'] = list(F[_pid]['mc_thorough']) + [('BufferL2', c) for c in _cfgs] + [('BufferL2', 'BufferL2_big')]
+# C04: bounded delay under sustained traffic (time-stamped Size observations; free-running only)
+F['C04']['legs'] = [dict(driver='buffer', profile='sustain', prop='reclaim', tv='BufferTV', n=(0, 3, 0, 24), mc_quick=[], mc_thorough=[])]
 F['C12']['legs'] = [dict(driver='channel', profile='close', prop='close', tv='ChannelTV', n=(60, 120, 1000, 3000),
                        mc_quick=[('ChannelMC', 'ChannelMC')], mc_thorough=[('ChannelMC', 'ChannelMC_big')]),
                   # SubscribeCancel's goroutine / registration must be gone once its context is cancelled (final census in NotifierTV)
@@ -288,7 +290,15 @@ def run_context(ctx):
     run_mc(ctx, 'ContextMC', 'ContextMC' if ctx.quick else 'ContextMC_big', workers=8, timeout=900)
     for mode, profile, n, seed in (('c', 'main', 150 if ctx.quick else 3000, ctx.seed), ('f', 'main', 300 if ctx.quick else 6000, ctx.seed + 1000),
                                    ('c', 'race', 250 if ctx.quick else 2500, ctx.seed + 2000), ('f', 'race', 4000 if ctx.quick else 60000, ctx.seed + 3000)):
-        out, st = run_harness(ctx, 'context', f'mode{mode}_{profile}', mode=mode, profile=profile, seed=seed, n=n)
+        try:
+            out, st = run_harness(ctx, 'context', f'mode{mode}_{profile}', mode=mode, profile=profile, seed=seed, n=n)
+        except Crash as c:
+            first = str(c).splitlines()[0][:300]
+            report(ctx, f'crash:mode{mode.upper()}:{profile}:{first[:80]}',
+                   f'the process running the real code was killed by a panic raised outside the harness, in code the library started (driver context, profile {profile}, mode {mode}, seed {seed}): {first}',
+                   {'panic.txt': str(c), 'exec.json': dict(driver='context', profile=profile, mode=mode, seed=seed, n=n, crash=True)})
+            ctx.evaluations += 1
+            continue
         trace = f'{out}/trace.ndjson'
         nlines, bad = tv_cases(ctx, 'ContextTV', trace, f'tv_{mode}_{profile}')
         lines = open(trace).read().splitlines()
